@@ -52,10 +52,12 @@ class CaseBuilder:
         self._op("import", {"op": "import", "dst": k, "fast": fast, "strat": named}, "o_import %s" % r, (), k)
         return k
 
-    def truncate(self, src, thresh):
+    def truncate(self, src, thresh, inplace=False):
+        """inplace: the executor truncates the very object in slot src and moves it to the new slot (src is empty
+        afterwards); otherwise it truncates a clone.  The model is a pure function either way."""
         k = self.slot()
         self._def(self.sl(k), "f_truncate %s %s %s" % (self.g, coq_float(thresh), self.sl(src)))
-        self._op("truncate", {"op": "truncate", "src": src, "dst": k, "thresh": f2b(thresh)},
+        self._op("truncate", {"op": "truncate", "src": src, "dst": k, "thresh": f2b(thresh), "inplace": bool(inplace)},
                  "o_opt %s" % self.sl(k), (src,), k)
         return k
 
